@@ -178,6 +178,13 @@ class Lexer:
             raise ValueError(digits)
         return int(digits, 16)
 
+    def _exponent_at(self, offset: int) -> bool:
+        """Does an exponent part (e/E, optional sign, digit) start at this offset?"""
+        if not self._peek(offset) or self._peek(offset) not in "eE":
+            return False
+        sign = 1 if self._peek(offset + 1) and self._peek(offset + 1) in "+-" else 0
+        return _is_digit(self._peek(offset + 1 + sign))
+
     def _read_number(self) -> float | int:
         """Read a number literal."""
         start = self.pos
@@ -227,10 +234,11 @@ class Lexer:
         is_float = False
         if self._current() == "." and (
             _is_digit(self._peek())
+            or self._exponent_at(1)
             or not (self._peek().isalpha() or self._peek() in ("_", "$"))
         ):
-            # "5." is a complete literal ("5..x" reads a property of 5); in "5.toFixed"
-            # the dot stays a punctuator
+            # "5." is a complete literal ("5..x" reads a property of 5, "5.e3" is 5000);
+            # in "5.toFixed" the dot stays a punctuator
             is_float = True
             self._advance()  # .
             while self._current() and _is_digit(self._current()):
